@@ -27,6 +27,55 @@ AllowOf(e) ==
   ELSE IF e.algorithms_given THEN AllowList(SeqToSet(e.algorithms))
        ELSE IF e.registry_given /\ e.registry_has_list THEN AllowList(SeqToSet(e.registry_allowed)) ELSE AllowAbsent
 
+\* ---- C15 on recorded calls: the declarative header rule of the statement, evaluated on the header the call was given
+ClassFits(ty, c) ==
+  CASE ty = "str" -> c \in {"str", "url"} [] ty = "url" -> c = "url" [] ty = "int" -> c = "int" [] ty = "bool" -> c = "bool"
+    [] ty = "list[str]" -> c = "list_str" [] ty = "jwk" -> c = "obj" [] OTHER -> TRUE
+HdrNames(h) == SeqToSet(h.names)
+HdrClass(h, n) == h.classes[CHOOSE j \in 1..Len(h.names) : h.names[j] = n]
+Uses7797(e, h) == e.reg7797 \/ (e.api7797 /\ "b64" \in HdrNames(h))
+BaseRegistry(e, h) == IF e.side = "jws" THEN (IF Uses7797(e, h) THEN Jws7797Header ELSE JwsHeader) ELSE JweHeader
+AlgRegistryOf(e, i) == IF e.side = "jwe" /\ e.entries[i].alg \in JweAlgNames THEN AlgHeader(JweAlgOf(e.entries[i].alg).mode) ELSE {}
+CustomOf(e) == {HP(c.name, c.type, c.required) : c \in SeqToSet(e.custom)}
+\* a caller's entry for a name replaces the standard one
+HdrEffective(e, i, h) == LET cu == CustomOf(e) IN cu \cup {p \in BaseRegistry(e, h) \cup AlgRegistryOf(e, i) : p.name \notin {c.name : c \in cu}}
+HeaderClause(e, i) ==
+  LET h == e.headers[i]  names == HdrNames(h)  hreg == HdrEffective(e, i, h)  algreg == AlgRegistryOf(e, i)
+  IN IF \E p \in hreg : p.required /\ p.name \notin names /\ (p \notin algreg \/ e.op = "consume") THEN "a required parameter is missing"
+     ELSE IF \E p \in hreg : p.name \in names /\ ~ClassFits(p.type, HdrClass(h, p.name)) THEN "a registered parameter has the wrong JSON type"
+     ELSE IF "crit" \in names /\ (~h.crit_list \/ \E c \in SeqToSet(h.crit) : c \notin names) THEN "crit names a parameter that is not in the header"
+     ELSE IF "b64" \in names /\ Uses7797(e, h) /\ "b64" \notin SeqToSet(h.crit) THEN "b64 without a crit that lists it"
+     ELSE IF e.strict /\ \E n \in names : n \notin {p.name : p \in hreg} THEN "an unregistered parameter under strict checking"
+     ELSE "ok"
+
+\* ---- C06 on recorded calls: a call that succeeded with a single key object was given a suitable key (KeyFit.tla, layer D)
+KF == INSTANCE KeyFit WITH Family <- "jws", Dev <- {}, case <- 0, pc <- 0, out <- 0
+ModeOf(e, i) == IF e.side = "jws" THEN "jws" ELSE JweAlgOf(e.entries[i].alg).mode
+OpsClass(e, i) ==
+  IF ~e.key.ops_declared THEN "none" ELSE IF Len(e.key.ops) = 0 THEN "empty"
+  ELSE LET need == KF!NeededOp(e.side, ModeOf(e, i), e.op) IN IF need = "" \/ need \in SeqToSet(e.key.ops) THEN "has" ELSE "lacks"
+KeyCase(e, i) == KF!Case(e.side, e.entries[i].alg, e.op, "compact",
+                         KF!Key(KF!Kind(e.key.kty, e.key.crv, e.key.bits), e.key.priv, e.key.use, OpsClass(e, i)), "")
+KeyKnown(e, i) == IF e.side = "jws" THEN e.entries[i].alg \in JwsNames \ {"none"}
+                  ELSE e.entries[i].alg \in JweAlgNames /\ e.entries[i].enc \in JweEncNames /\ JweAlgOf(e.entries[i].alg).mode \notin {"1pu", "1pukw"}
+\* (the size rule of KeyFit fixes the enc per alg; here the enc is the one the call named)
+TraceSizeOk(e, i) ==
+  IF e.side = "jws" THEN TRUE
+  ELSE LET a == JweAlgOf(e.entries[i].alg) IN
+       CASE a.mode \in {"kw", "gcmkw"} -> e.key.bits = a.bits
+         [] a.mode = "dir" -> e.key.bits = JweEncOf(e.entries[i].enc).cek
+         [] a.mode = "rsa" -> (e.op = "produce" => e.key.bits >= 2048)
+         [] OTHER -> TRUE
+KeyClause(e, i) ==
+  LET c == KeyCase(e, i)
+  IN IF ~KF!TypeOk(c) THEN "a key of the wrong type"
+     ELSE IF ~KF!UseOk(c) THEN "a key whose use forbids it"
+     ELSE IF ~KF!CurveOk(c) THEN "a key on the wrong curve"
+     ELSE IF ~TraceSizeOk(e, i) THEN "a key of the wrong size"
+     ELSE IF ~KF!OpsOk(c) /\ ~KF!SoftCase(c) THEN "a key whose key_ops exclude the operation"
+     ELSE IF ~KF!PrivateOk(c) THEN "a public key where private material is needed"
+     ELSE "ok"
+
 CallOf(e, i) == Call(e.side, e.op, e.api, "trace", AllowOf(e), e.entries[i].alg, e.entries[i].enc, e.entries[i].zip)
 
 TInit == reg = {} /\ leak = AllowAbsent /\ hist = <<>> /\ l = 1 /\ rejected = <<>> /\ judged = 0
@@ -37,8 +86,20 @@ Consume ==
          r == SeqToSet(e.reg)
          bad == {i \in 1..Len(e.entries) : ~Usable(CallOf(e, i), r)}
          noneOk == \E i \in 1..Len(e.entries) : e.side = "jws" /\ e.op = "consume" /\ e.entries[i].alg = "none"
+         hbad == IF e.headers_judged /\ e.outcome = "ok" THEN {i \in 1..Len(e.headers) : HeaderClause(e, i) # "ok"} ELSE {}
+         \* (several signatures / recipients: the one key need only suit one of them - the others are for other parties)
+         kall == {i \in 1..Len(e.entries) : KeyKnown(e, i)}
+         kbad == IF e.key_judged /\ e.outcome = "ok" /\ kall # {} /\ \A i \in kall : KeyClause(e, i) # "ok" THEN kall ELSE {}
      IN /\ reg' = r
-        /\ IF e.judged /\ e.outcome = "ok" /\ (bad # {} \/ noneOk)
+        /\ IF kbad # {}
+           THEN rejected' = Append(rejected, [seq |-> e.seq, api |-> e.api,
+                                              clause |-> "operation succeeded with " \o KeyClause(e, CHOOSE i \in kbad : TRUE),
+                                              names |-> e.entries])
+           ELSE IF hbad # {}
+           THEN rejected' = Append(rejected, [seq |-> e.seq, api |-> e.api,
+                                              clause |-> "operation succeeded although " \o HeaderClause(e, CHOOSE i \in hbad : TRUE),
+                                              names |-> e.entries])
+           ELSE IF e.judged /\ e.outcome = "ok" /\ (bad # {} \/ noneOk)
            THEN rejected' = Append(rejected, [seq |-> e.seq, api |-> e.api,
                                               clause |-> IF noneOk THEN "alg none verified"
                                                          ELSE "operation succeeded with an algorithm outside the effective allow-list",
@@ -48,5 +109,7 @@ Consume ==
   /\ l' = l + 1 /\ UNCHANGED <<leak, hist>>
 TNext == Consume
 TSpec == TInit /\ [][TNext]_tvars
-Report == l > Len(Trace) => PrintT("CASE " \o ToJson([rejected |-> rejected, events |-> Len(Trace), judged_ok |-> judged]))
+Report == l > Len(Trace) => PrintT("CASE " \o ToJson([rejected |-> rejected, events |-> Len(Trace), judged_ok |-> judged,
+                                                       keys_judged_ok |-> Cardinality({i \in 1..Len(Trace) : Trace[i].key_judged /\ Trace[i].outcome = "ok"}),
+                                                       headers_judged_ok |-> Cardinality({i \in 1..Len(Trace) : Trace[i].headers_judged /\ Trace[i].outcome = "ok"})]))
 =============================================================================
